@@ -70,6 +70,12 @@ func LoadBackend(env *Env) func(*cobra.Command, []string) error {
 
 		err = CacheBuildProgressBar(env, events)
 		if err != nil {
+			// the cache is not usable: wait for the build to stop, then release
+			// the lock if it was taken
+			for range events {
+			}
+			_ = env.Backend.Close()
+			env.Backend = nil
 			return err
 		}
 
@@ -102,6 +108,9 @@ func LoadBackendEnsureUser(env *Env) func(*cobra.Command, []string) error {
 
 		_, err = identity.GetUserIdentity(env.Repo)
 		if err != nil {
+			// the command will not run: release the lock
+			_ = env.Backend.Close()
+			env.Backend = nil
 			return err
 		}
 
